@@ -381,3 +381,12 @@ claim(
     "abstract interpretation of the loop body over a set-algebra domain with scripted branch enumeration; propositional decision of inclusion obligations; concrete-kernel interpretation of the dilation and of the brush constructor",
     "DESIGN.md §6 (moved from not-applicable)",
 )
+
+claim(
+    "C42",
+    "other",
+    "Narrow: that XLA's SPMD partitioning preserves values is the trusted base, and reduction-order round-off across partitions is not decided. Decided is that nothing the repository computes depends on the device count: create_named_sharded_matrix, interpreted for 1, 2 and 4 devices against a model of the jax sharding API, returns exactly the requested shape filled with the requested value, shards the requested axis (or the first axis of extent > 1 when that one has extent one) and rejects a non-divisible extent (15 combinations); sharding_preserving_set / _add equal arr.at[index].set / add(values) on one device and on several; init_sharded_dict pads only the leading time axis to the next multiple of the device count with zeros; the device list is read only by the sharding helpers, the recording-buffer allocation and the backend probing of SimulationConfig — nothing in the time loop, sources, detectors, boundaries or parameter transforms reads it.",
+    TB + "; XLA SPMD value preservation; model of Mesh / PartitionSpec / NamedSharding index map / make_array_from_single_device_arrays",
+    "abstract interpretation of the allocation and update helpers against a model of the sharding API for several device counts; who-may-read rule on the syntax tree",
+    "DESIGN.md §6 (moved from not-applicable)",
+)
